@@ -1,11 +1,18 @@
 (* Property C10 — MarshalJSON emits valid JSON denoting the same document.
    Proved on the model: the string and number printers produce text that the
    specification's recogniser reads back to the same value; non-finite floats
-   are errors.  The composition over the whole marshal loop is decided by the
-   correspondence run (output equal to the modelled MarshalJSON byte for byte,
-   re-parsed, fixed point); K2 (-0.0) is the known exception to the fixed point. *)
-From SJ Require Import Model.Base Model.RefTables Spec.Json Model.Iter Model.FloatFmt Model.Marshal Proofs.NumLex Proofs.NumberFinal
-     Proofs.EscapeProofs Proofs.FloatFmtProofs Tie.GoTablesTie Tie.SerializeTie.
+   are errors; and the WHOLE marshal loop: refinement to a document-level
+   printer on every tape with a denotation (NOP gaps included), validity and
+   same document under the specification's recogniser, fixed point, and the end
+   to end chains parse -> marshal -> parse -> marshal.  K2 (-0.0) is the stated
+   exception to the fixed point (no_negzero); K4 (integral floats >= 2^53 read
+   back as a different integer) is why doc_equiv relates such a float to an
+   integer that ROUNDS to it (int_rounds_to), not to an equal one. *)
+From SJ Require Import Model.Base Model.RefTables Spec.Json Model.Tape Model.Iter Model.Driver Model.FloatFmt Proofs.NumLex Proofs.NumberFinal
+     Proofs.EscapeProofs Proofs.FloatFmtProofs Proofs.TapeSeg Tie.GoTablesTie Tie.SerializeTie.
+From SJ Require Import Model.Marshal Proofs.MarshalProofsBase Proofs.MarshalProofsRefine Proofs.MarshalProofsNum
+     Proofs.MarshalProofsText Proofs.MarshalProofsTape Proofs.MarshalProofsArray Proofs.MarshalProofsSpecOk
+     Proofs.MarshalFinal.
 Open Scope N_scope.
 
 (* a printed string is a JSON string literal denoting exactly the same bytes *)
@@ -40,6 +47,96 @@ Theorem C10_tie_escape_tables :
   tab_diff gen.Tables.gen_shouldEscape shouldEscape_ref 256 = [] /\ tab_diff gen.Tables.gen_valToHex valToHex_ref 16 = [].
 Proof. exact (conj tie_shouldEscape tie_valToHex). Qed.
 
+(* ---- the whole marshal loop (Proofs/Marshal*.v) ---------------------- *)
+
+(* (a) REFINEMENT: on every tape that has a denotation (NOP gaps of deletions
+   included) Iter.MarshalJSONBuffer of the root iterator returns exactly
+   print_docs ds — roots separated by LF — or the error outcome when a float
+   is not finite (or there is no root); never a crash, never out of fuel *)
+Theorem C10_marshal_refines : forall pj ds,
+  denote (pj_msg pj) (pj_strings pj) (pj_tape pj) = Some ds ->
+  marshal_iter pj (iter0 pj) = marshal_spec ds.
+Proof. exact C10a_marshal_refines. Qed.
+
+Theorem C10_marshal_outcomes : forall pj ds,
+  denote (pj_msg pj) (pj_strings pj) (pj_tape pj) = Some ds ->
+  (ds <> [] -> forallb fin_doc ds = true -> marshal_iter pj (iter0 pj) = Ok (pr_docs ds)) /\
+  (forallb fin_doc ds = false -> marshal_iter pj (iter0 pj) = Err) /\
+  (ds = [] -> marshal_iter pj (iter0 pj) = Err) /\
+  marshal_iter pj (iter0 pj) <> Crash /\ marshal_iter pj (iter0 pj) <> OutOfFuel.
+Proof. exact C10a_outcomes. Qed.
+
+(* (b) VALIDITY + SAME DOCUMENT *)
+Theorem C10_text_valid : forall d,
+  doc_okb d = true -> is_container d = true ->
+  spec_parse (pr_doc d) = SOk (redoc d) /\ doc_equiv d (redoc d).
+Proof. exact C10b_text_valid. Qed.
+
+Theorem C10_ndtext_valid : forall ds,
+  ds <> [] -> docs_okb ds = true ->
+  nd_spec (pr_docs ds) = SOk (map redoc ds) /\ Forall2 doc_equiv ds (map redoc ds).
+Proof. exact C10b_ndtext_valid. Qed.
+
+(* (c) FIXED POINT, and its exception K2 *)
+Theorem C10_fixed_point : forall d,
+  doc_okb d = true -> no_negzero d = true -> print_doc (redoc d) = print_doc d.
+Proof. exact C10c_fixed_point. Qed.
+
+(* (d) END TO END: edited tapes of 64-bit words; freshly parsed input *)
+Theorem C10_roundtrip_tape : forall copy pj ds,
+  denote (pj_msg pj) (pj_strings pj) (pj_tape pj) = Some ds -> ds <> [] ->
+  words64 (pj_tape pj) -> forallb doc_txtb ds = true -> forallb is_container ds = true ->
+  N.of_nat (length (pr_docs ds)) < 2 ^ 55 ->
+  marshal_iter pj (iter0 pj) = Ok (pr_docs ds) /\
+  nd_spec (pr_docs ds) = SOk (map redoc ds) /\
+  exists p, parsend_model copy (pr_docs ds) = Ok p /\
+    denote (p_msg p) (p_strings p) (p_tape p) = Some (map redoc ds) /\
+    Forall2 doc_equiv ds (map redoc ds) /\
+    (forallb no_negzero ds = true -> marshal_iter (pj_of p) (iter0 (pj_of p)) = Ok (pr_docs ds)).
+Proof. exact C10d_roundtrip_tape. Qed.
+
+Theorem C10_parse_marshal_parse_full : forall copy bs d,
+  N.of_nat (length bs) < 2 ^ 55 -> spec_parse bs = SOk d ->
+  N.of_nat (length (pr_doc d)) < 2 ^ 55 ->
+  exists p, parse_model copy bs = Ok p /\
+    denote (p_msg p) (p_strings p) (p_tape p) = Some [d] /\
+    marshal_iter (pj_of p) (iter0 (pj_of p)) = Ok (pr_doc d) /\
+    spec_parse (pr_doc d) = SOk (redoc d) /\ doc_equiv d (redoc d) /\
+    exists p', parse_model copy (pr_doc d) = Ok p' /\
+      denote (p_msg p') (p_strings p') (p_tape p') = Some [redoc d] /\
+      (no_negzero d = true -> marshal_iter (pj_of p') (iter0 (pj_of p')) = Ok (pr_doc d)).
+Proof. exact C10_parse_marshal_parse. Qed.
+
+Theorem C10_parsend_marshal_parsend_full : forall copy bs ds,
+  N.of_nat (length bs) < 2 ^ 55 -> nd_spec bs = SOk ds ->
+  N.of_nat (length (pr_docs ds)) < 2 ^ 55 ->
+  exists p, parsend_model copy bs = Ok p /\
+    denote (p_msg p) (p_strings p) (p_tape p) = Some ds /\
+    marshal_iter (pj_of p) (iter0 (pj_of p)) = Ok (pr_docs ds) /\
+    nd_spec (pr_docs ds) = SOk (map redoc ds) /\ Forall2 doc_equiv ds (map redoc ds) /\
+    exists p', parsend_model copy (pr_docs ds) = Ok p' /\
+      denote (p_msg p') (p_strings p') (p_tape p') = Some (map redoc ds) /\
+      (forallb no_negzero ds = true -> marshal_iter (pj_of p') (iter0 (pj_of p')) = Ok (pr_docs ds)).
+Proof. exact C10_parsend_marshal_parsend. Qed.
+
+(* restricted iterators and Array.MarshalJSONBuffer (every array, the empty one and the all-deleted one included) *)
+Theorem C10_value_iterator_text : forall pj strict adj pre v X d w r it,
+  pj_tape pj = pre ++ v ++ X ->
+  val_seg (pj_msg pj) (pj_strings pj) strict adj (nlen pre) v d -> v = w :: r ->
+  on_word it (length pre) w -> i_len it = Z.of_nat (length pre + length v) ->
+  marshal_iter pj it = value_spec d.
+Proof. exact C10_value_iterator. Qed.
+
+Theorem C10_array_marshal_text : forall pj strict adj pre w body e X l,
+  pj_tape pj = pre ++ (w :: body ++ [e]) ++ X ->
+  items (pj_msg pj) (pj_strings pj) strict adj (nlen pre + 1) body l -> word_tag e = TagArrayEnd ->
+  word_val w = nlen pre + nlen body + 2 ->
+  marshal_array pj {| c_len := Z.of_N (word_val w); c_off := Z.of_nat (length pre) + 1 |} =
+    value_spec (DArr l).
+Proof. exact C10_array_marshal. Qed.
+
+Print Assumptions C10_marshal_refines.
+Print Assumptions C10_parse_marshal_parse_full.
 Print Assumptions C10_string_roundtrip.
 Print Assumptions C10_escape_unescape.
 Print Assumptions C10_float_roundtrip.
